@@ -263,22 +263,22 @@ func (fs *FactSet) describe() []string {
 // ---------------------------------------------------------------------------------------------
 
 type Flow struct {
-	u       *FuncUnit
-	m       *Model
-	ef      *effects
-	info    *types.Info
-	g       *cfg.CFG
-	in      []*FactSet
-	at      *atomTable
-	z       *linearizer
-	raw     *canonCtx
-	escaped map[*types.Var]bool // address taken, or assigned inside a nested literal
-	fresh   map[*types.Var]bool // local pointers that only ever hold a newly obtained object
-	caseTag map[ast.Expr]ast.Expr
-	entry   []*Fact
-	ok      bool // fixpoint reached
-	iters   int
-	retBnd  func(call *ast.CallExpr) []retBound
+	u        *FuncUnit
+	m        *Model
+	ef       *effects
+	info     *types.Info
+	g        *cfg.CFG
+	in       []*FactSet
+	at       *atomTable
+	z        *linearizer
+	raw      *canonCtx
+	escaped  map[*types.Var]bool // address taken, or assigned inside a nested literal
+	fresh    map[*types.Var]bool // local pointers that only ever hold a newly obtained object
+	caseTag  map[ast.Expr]ast.Expr
+	entry    []*Fact
+	ok       bool // fixpoint reached
+	iters    int
+	retBnd   func(call *ast.CallExpr) []retBound
 	resFresh func(call *ast.CallExpr) []bool // per result: freshly allocated by the callee
 }
 
